@@ -693,7 +693,7 @@ func c14table(c *an.Ctx) {
 	}
 	c.Note("built-in oracle: %s (%d entries)", src, len(want))
 	table := map[string]ast.Expr{}
-	for _, f := range p.Fns {
+	for _, f := range p.Units() {
 		if f.Pkg != p.Jet || f.Decl == nil || f.Decl.Name.Name != "init" {
 			continue
 		}
